@@ -80,7 +80,7 @@ def check(run):
     if min(outcomes.values()) == 0:
         raise RuntimeError('vacuity guard: an outcome class was never observed: %r' % outcomes)
     for sid, seq, clause in rejects:
-        if clause not in ('opt-effect', 'setfixed-frame'):
+        if clause not in ('opt-effect', 'setfixed-frame') + ('opt-raised',):
             continue
         ev = byid[(sid, seq)]
         s = sessions[sid]
